@@ -1,11 +1,23 @@
 """C01 — degree-preserving rewiring keeps every node's degree and the weight multiset."""
+import os
 import numpy as np
 from common import *
 from rewire_common import *
 
+import translate_rewire
+
 ID = 'C01'
-COQ_FILES = ['Properties/C01.v']
-THEOREMS = ['C01_run_invariant', 'C01_run_caller', 'C01_partial_und', 'C01_attempt', 'C01_rbu_step_partial']
+COQ_FILES = ['Properties/C01.v', 'Gen/RewireTable.v']
+
+
+def pregen():
+    """regenerate Gen/RewireTable.v from the CURRENT source tree (tie by translation)"""
+    return translate_rewire.generate(REPO, os.path.join(COQ, 'theories', 'Gen', 'RewireTable.v'))
+
+
+PREGEN_NOTES = pregen()   # at import: before the framework builds the Coq files
+THEOREMS = ['C01_run_invariant', 'C01_run_caller', 'C01_partial_und', 'C01_attempt', 'C01_rbu_step_partial',
+            'C01_source_table', 'C01_engine_is_table']
 RULE = ('8 engine routines + randomize_graph_partial_und + randomizer_bin_und on generated graphs n=4..9 (ER at several '
         'densities, ring+chords, tree+chords, bridges, isolated nodes; binary and integer weights 1..9; domain filter: at least '
         'two vertex-disjoint edges, connected input for the _connected routines); itr in {0,1,2,5}; every run is recorded '
@@ -147,6 +159,7 @@ def rbu_case(ctx, lines=None, pend=None):
 
 
 def run(ctx):
+    ctx.extra['translator_unrecognised'] = PREGEN_NOTES
     lines, pend = [], []
     per = ctx.scale(28, 300)
     for fn in ROUTINES:
